@@ -2,6 +2,12 @@
 // Exhaustive: all 2^16 half patterns, all 2^32 float patterns, on the real code, through the
 // C functions and through the C++ constructor / cast. Oracles: engine/halfref.hpp (definition)
 // and, when the CPU has F16C, the hardware converter (independent second oracle).
+// Routes: imath_float_to_half / imath_half_to_float, half::half(float), half::operator=(float), half::operator float.
+// Ambient state: the conversions are defined on bit patterns, so every sweep is repeated under each non-default
+// rounding mode (FE_UPWARD, FE_DOWNWARD, FE_TOWARDZERO) and each MXCSR denormal mode (DAZ, FTZ, DAZ|FTZ); the correct
+// answer does not depend on them (every float subnormal is below 2^-25 and becomes a signed zero anyway; every half
+// subnormal is a normal float), a conversion written with float arithmetic ("multiply by a magic constant") does.
+// Build variant IMATH_HALF_ENABLE_FP_EXCEPTIONS: harness/c01_fpexc.cpp (stage fpexc-build).
 #include "../engine/halfref.hpp"
 #include "../engine/report.hpp"
 #include <half.h>
@@ -9,6 +15,9 @@
 #include <cpuid.h>
 #include <cfenv>
 #include <vector>
+#include <xmmintrin.h>
+
+void c01_fpexc_stage (); // c01_fpexc.cpp
 
 using namespace vf;
 using IMATH_NAMESPACE::half;
@@ -26,6 +35,46 @@ static bool is_nan16 (uint16_t h) { return (h & 0x7c00) == 0x7c00 && (h & 0x3ff)
 static bool is_nan32 (uint32_t u) { return (u & 0x7fffffffu) > 0x7f800000u; }
 
 static std::string hx (uint32_t v, int w) { char b[16]; snprintf (b, sizeof b, "0x%0*x", w, v); return b; }
+
+// non-default ambient floating-point states: rounding mode (x87 CW + MXCSR.RC via fesetround) and MXCSR.DAZ (bit 6) / FTZ (bit 15)
+struct Ambient { const char* name; int round; unsigned mxcsr; bool denormal_mode; };
+static const Ambient AMB[6] = {{"FE_UPWARD", FE_UPWARD, 0, false},        {"FE_DOWNWARD", FE_DOWNWARD, 0, false}, {"FE_TOWARDZERO", FE_TOWARDZERO, 0, false},
+                               {"MXCSR-DAZ", FE_TONEAREST, 0x0040, true}, {"MXCSR-FTZ", FE_TONEAREST, 0x8000, true}, {"MXCSR-DAZ+FTZ", FE_TONEAREST, 0x8040, true}};
+static inline void ambient_set (const Ambient& a) { fesetround (a.round); if (a.mxcsr) _mm_setcsr (_mm_getcsr () | a.mxcsr); }
+static inline void ambient_reset () { _mm_setcsr (_mm_getcsr () & ~0x8040u); fesetround (FE_TONEAREST); }
+
+// one pass of the three float->half routes over [lo,hi) under whatever ambient state is in force; only integer
+// comparisons with the precomputed reference happen here (the reference model uses double arithmetic and must run
+// under the default state). noinline: nothing of it may be moved across the state changes in the caller.
+struct PassBad { long long n[3]; uint32_t first[3]; uint16_t got[3]; };
+__attribute__ ((noinline)) static void f2h_pass (uint64_t lo, uint64_t hi, const uint16_t* ref, PassBad& b, bool with_assign)
+{
+    for (uint64_t i = lo; i < hi; ++i)
+    {
+        float    f = href::bitsf ((uint32_t) i);
+        uint16_t r = ref[i - lo];
+        uint16_t c = imath_float_to_half (f), cpp = half (f).bits ();
+        if (c != r && !b.n[0]++) { b.first[0] = (uint32_t) i; b.got[0] = c; }
+        if (cpp != r && !b.n[1]++) { b.first[1] = (uint32_t) i; b.got[1] = cpp; }
+        if (with_assign)
+        {
+            half as; as.setBits (0x7e55); as = f;
+            if (as.bits () != r && !b.n[2]++) { b.first[2] = (uint32_t) i; b.got[2] = as.bits (); }
+        }
+    }
+}
+struct H2fOut { uint32_t c, cpp; uint16_t back; };
+__attribute__ ((noinline)) static void h2f_pass (H2fOut* out)
+{
+    for (uint32_t i = 0; i < 65536; ++i)
+    {
+        uint16_t h = (uint16_t) i;
+        out[i].c = href::fbits (imath_half_to_float (h));
+        half hh; hh.setBits (h);
+        out[i].cpp  = href::fbits ((float) hh);
+        out[i].back = imath_float_to_half (href::bitsf (out[i].c));
+    }
+}
 
 int main (int argc, char** argv)
 {
@@ -105,25 +154,27 @@ int main (int argc, char** argv)
                 if (back != h) R ().fail ("roundtrip.nan-payload", hx (h, 4), hx (h, 4), hx (back, 4));
             }
         }
-        // ... and under every non-default ambient rounding mode (both directions of the round trip)
+        // ... and under every non-default ambient state (both directions of the round trip). The reference values are
+        // computed first, under the default state.
         {
-            static const int   MODES[3] = {FE_UPWARD, FE_DOWNWARD, FE_TOWARDZERO};
-            static const char* MN[3]    = {"FE_UPWARD", "FE_DOWNWARD", "FE_TOWARDZERO"};
-            for (int m = 0; m < 3; ++m)
+            std::vector<uint32_t> refv (65536);
+            for (uint32_t i = 0; i < 65536; ++i) refv[i] = href::h2f_ref ((uint16_t) i);
+            std::vector<H2fOut> out (65536);
+            for (const Ambient& a : AMB)
+            {
+                ambient_set (a);
+                h2f_pass (out.data ());
+                ambient_reset ();
                 for (uint32_t i = 0; i < 65536; ++i)
                 {
-                    uint16_t h   = (uint16_t) i;
-                    uint32_t ref = href::h2f_ref (h);
-                    fesetround (MODES[m]);
-                    uint32_t c = href::fbits (imath_half_to_float (h));
-                    half     hh; hh.setBits (h);
-                    uint32_t cpp  = href::fbits ((float) hh);
-                    uint16_t back = imath_float_to_half (href::bitsf (c));
-                    fesetround (FE_TONEAREST);
-                    if (c != ref || cpp != ref) R ().fail (std::string ("imath_half_to_float.under-") + MN[m], hx (h, 4), hx (ref, 8), hx (c != ref ? c : cpp, 8));
-                    if (back != h) R ().fail (std::string ("roundtrip.under-") + MN[m], hx (h, 4), hx (h, 4), hx (back, 4));
+                    uint16_t h = (uint16_t) i;
+                    if (out[i].c != refv[i] || out[i].cpp != refv[i])
+                        R ().fail (std::string ("imath_half_to_float.under-") + a.name, hx (h, 4), hx (refv[i], 8), hx (out[i].c != refv[i] ? out[i].c : out[i].cpp, 8));
+                    if (out[i].back != h) R ().fail (std::string ("roundtrip.under-") + a.name, hx (h, 4), hx (h, 4), hx (out[i].back, 4));
                 }
-            R ().add ("transitions", 65536 * 3 * 3);
+                R ().add ("transitions", 65536 * 3);
+                R ().cls (a.denormal_mode ? "h2f.ambient-mxcsr-daz-ftz" : "h2f.non-default-ambient-rounding-mode", 65536);
+            }
         }
         R ().add ("states", 65536);
         R ().add ("transitions", 65536 * 4);
@@ -133,29 +184,40 @@ int main (int argc, char** argv)
         R ().add ("roundtrip_identity_patterns", ident);
         R ().sample ("half 0x0001 -> float " + hx (href::fbits (imath_half_to_float (1)), 8));
         R ().sample ("half 0xfbff -> float " + hx (href::fbits (imath_half_to_float (0xfbff)), 8));
-        R ().stage_done ("all 65536 half patterns x {C function, C++ cast, round trip}");
+        R ().stage_done ("all 65536 half patterns x {C function, C++ cast, round trip} x {default, 3 rounding modes, MXCSR DAZ, FTZ, DAZ+FTZ}");
     }
 
     // ---- stage 2: all 2^32 float -> half
     if (R ().stage ("float-to-half-all"))
     {
         std::atomic<long long> ties (0), subn (0), near_ovf (0), near_flush (0), nan_zero_top (0), nan_other (0),
-            generic (0), done (0), outcomes_seen (0), modes_done (0);
+            generic (0), done (0), outcomes_seen (0), modes_done (0), denorm_modes_done (0), ambient_route_sweeps (0);
+        // ambient states of this tier. thorough: all six x three routes. quick (also what the clang / -O0 rebuilds of the
+        // thorough tier run): the three rounding modes x {C function, constructor} and MXCSR DAZ+FTZ (both denormal modes at
+        // once: each of them can only turn values into zeros, so a conversion that is sensitive to one of them is sensitive to
+        // the pair) x three routes; DAZ alone and FTZ alone are swept over all 2^32 in the thorough tier and over all 2^16
+        // half inputs in both.
+        const bool thorough = R ().thorough ();
         std::vector<std::atomic<uint8_t>> seen (65536);
         for (auto& s : seen) s = 0;
         const uint64_t N = 1ull << 32, CH = 1ull << 20;
         bool complete = parallel_chunks (N, CH, [&] (uint64_t lo, uint64_t hi, unsigned) {
             long long l_ties = 0, l_sub = 0, l_ovf = 0, l_flush = 0, l_nz = 0, l_no = 0, l_gen = 0;
             uint16_t  prev = 0; bool have_prev = false;
+            static thread_local std::vector<uint16_t> refbuf; // reference results of this chunk (computed under the default state)
+            refbuf.resize (hi - lo);
             for (uint64_t i = lo; i < hi; ++i)
             {
                 uint32_t u   = (uint32_t) i;
                 float    f   = href::bitsf (u);
                 uint16_t ref = href::f2h_ref (u);
+                refbuf[i - lo] = ref;
                 uint16_t c   = imath_float_to_half (f);
                 uint16_t cpp = half (f).bits ();
+                half     as; as.setBits (0x7e55); as = f; // the third route: half::operator=(float) has its own body
                 if (c != ref) R ().fail ("imath_float_to_half", hx (u, 8), hx (ref, 4), hx (c, 4));
                 if (cpp != ref) R ().fail ("half::half(float)", hx (u, 8), hx (ref, 4), hx (cpp, 4));
+                if (as.bits () != ref) R ().fail ("half::operator=(float)", hx (u, 8), hx (ref, 4), hx (as.bits (), 4));
                 uint32_t ab = u & 0x7fffffffu;
                 if (have_f16c)
                 {
@@ -193,31 +255,25 @@ int main (int argc, char** argv)
                     }
                 }
             }
-            // The conversion is defined on bit patterns: its result must not depend on the AMBIENT rounding mode. Re-run
-            // the two library entry points on this chunk under each non-default mode (set in this worker thread only,
-            // restored before the reference model is used again) and compare with the reference.
+            // The conversion is defined on bit patterns: its result must not depend on the AMBIENT floating-point state.
+            // Re-run the three library routes on this chunk under each non-default rounding mode and each MXCSR denormal
+            // mode (set in this worker thread only, restored before the reference model is used again) and compare with
+            // the reference results computed above.
             {
-                static const int   MODES[3] = {FE_UPWARD, FE_DOWNWARD, FE_TOWARDZERO};
-                static const char* MN[3]    = {"FE_UPWARD", "FE_DOWNWARD", "FE_TOWARDZERO"};
-                static thread_local std::vector<uint16_t> refbuf;
-                refbuf.resize (hi - lo);
-                for (uint64_t i = lo; i < hi; ++i) refbuf[i - lo] = href::f2h_ref ((uint32_t) i);
-                for (int m = 0; m < 3; ++m)
+                static const char* RT[3] = {"imath_float_to_half", "half::half(float)", "half::operator=(float)"};
+                for (const Ambient& a : AMB)
                 {
-                    fesetround (MODES[m]);
-                    long long bad_c = 0, bad_cpp = 0; uint32_t first_c = 0, first_cpp = 0; uint16_t got_c = 0, got_cpp = 0;
-                    for (uint64_t i = lo; i < hi; ++i)
-                    {
-                        float    f = href::bitsf ((uint32_t) i);
-                        uint16_t c = imath_float_to_half (f), cpp = half (f).bits (), r = refbuf[i - lo];
-                        if (c != r && !bad_c++) { first_c = (uint32_t) i; got_c = c; }
-                        if (cpp != r && !bad_cpp++) { first_cpp = (uint32_t) i; got_cpp = cpp; }
-                    }
-                    fesetround (FE_TONEAREST);
-                    if (bad_c) R ().fail_n (std::string ("imath_float_to_half.under-") + MN[m], bad_c, hx (first_c, 8), hx (refbuf[first_c - lo], 4), hx (got_c, 4));
-                    if (bad_cpp) R ().fail_n (std::string ("half::half(float).under-") + MN[m], bad_cpp, hx (first_cpp, 8), hx (refbuf[first_cpp - lo], 4), hx (got_cpp, 4));
+                    if (!thorough && a.denormal_mode && a.mxcsr != 0x8040) continue;
+                    const bool with_assign = thorough || a.denormal_mode;
+                    PassBad b = {{0, 0, 0}, {0, 0, 0}, {0, 0, 0}};
+                    ambient_set (a);
+                    f2h_pass (lo, hi, refbuf.data (), b, with_assign);
+                    ambient_reset ();
+                    ambient_route_sweeps += (with_assign ? 3 : 2) * (long long) (hi - lo);
+                    for (int r = 0; r < 3; ++r)
+                        if (b.n[r]) R ().fail_n (std::string (RT[r]) + ".under-" + a.name, b.n[r], hx (b.first[r], 8), hx (refbuf[b.first[r] - lo], 4), hx (b.got[r], 4));
+                    (a.denormal_mode ? denorm_modes_done : modes_done) += (long long) (hi - lo);
                 }
-                modes_done += 3 * (long long) (hi - lo);
             }
             ties += l_ties; subn += l_sub; near_ovf += l_ovf; near_flush += l_flush; nan_zero_top += l_nz; nan_other += l_no; generic += l_gen;
             done += (long long) (hi - lo);
@@ -225,22 +281,26 @@ int main (int argc, char** argv)
         long long distinct = 0;
         for (auto& s : seen) distinct += s.load ();
         R ().add ("states", done.load ());
-        R ().add ("transitions", done.load () * 2);
+        R ().add ("transitions", done.load () * 3);
         R ().add ("evaluations", done.load ());
         R ().cls ("f2h.exact_tie", ties); R ().cls ("f2h.subnormal_result", subn); R ().cls ("f2h.near_overflow_threshold", near_ovf);
         R ().cls ("f2h.near_flush_threshold", near_flush); R ().cls ("f2h.nan_zero_top_payload", nan_zero_top);
         R ().cls ("f2h.nan_other", nan_other); R ().cls ("f2h.generic", generic);
         R ().add ("distinct_outcomes", distinct);
-        R ().add ("transitions", modes_done.load () * 2);
+        R ().add ("transitions", ambient_route_sweeps.load ());
         R ().cls ("f2h.non-default-ambient-rounding-mode", modes_done.load ());
+        R ().cls ("f2h.ambient-mxcsr-daz-ftz", denorm_modes_done.load ());
         if (complete && distinct != 65536) R ().fail ("surjective", "all floats", "65536 distinct half results", std::to_string (distinct));
         R ().sample ("float 0x477fefff (65519.996) -> half " + hx (imath_float_to_half (href::bitsf (0x477fefffu)), 4));
         R ().sample ("float 0x477ff000 (65520) -> half " + hx (imath_float_to_half (href::bitsf (0x477ff000u)), 4));
         R ().sample ("float 0x33000000 (2^-25, tie to even 0) -> half " + hx (imath_float_to_half (href::bitsf (0x33000000u)), 4));
         R ().sample ("float 0x33000001 -> half " + hx (imath_float_to_half (href::bitsf (0x33000001u)), 4));
         R ().sample ("float 0x7f800001 (NaN, top payload 0) -> half " + hx (imath_float_to_half (href::bitsf (0x7f800001u)), 4));
-        if (complete) R ().stage_done ("all 2^32 float patterns x {C function, C++ constructor} x {FE_TONEAREST, FE_UPWARD, FE_DOWNWARD, FE_TOWARDZERO} vs definition model" + std::string (have_f16c ? " and F16C hardware" : ""));
+        if (complete) R ().stage_done ("all 2^32 float patterns x {C function, C++ constructor, operator=(float)} x " + std::string (thorough ? "{default, FE_UPWARD, FE_DOWNWARD, FE_TOWARDZERO, MXCSR DAZ, FTZ, DAZ+FTZ}" : "{default, MXCSR DAZ+FTZ} and x {C function, C++ constructor} x {FE_UPWARD, FE_DOWNWARD, FE_TOWARDZERO}") + " vs definition model" + std::string (have_f16c ? " and F16C hardware" : ""));
         else R ().stage_partial (std::to_string (done.load ()) + " of 2^32 patterns");
     }
+
+    // ---- stage 3: the IMATH_HALF_ENABLE_FP_EXCEPTIONS build of the same code (own TU)
+    if (R ().stage ("fpexc-build")) c01_fpexc_stage ();
     return R ().finish ();
 }
